@@ -1476,8 +1476,9 @@ impl<'p> Evaluator<'_, 'p> {
             .push(State::AppendToString(format!("</{tag}>")));
 
         if let Some(item1) = array.get(1) {
-            for item in array[2..].iter().rev() {
-                self.state_stack.push(State::StdManifestXmlJsonmlItemN);
+            for (i, item) in array[2..].iter().enumerate().rev() {
+                self.state_stack
+                    .push(State::StdManifestXmlJsonmlItemN { index: i + 2 });
                 self.state_stack.push(State::DoThunk(item.view()));
             }
             self.state_stack.push(State::StdManifestXmlJsonmlItem1);
@@ -1502,6 +1503,10 @@ impl<'p> Evaluator<'_, 'p> {
                 let result = self.string_stack.last_mut().unwrap();
                 result.push('>');
 
+                self.push_trace_item(TraceItem::ArrayItem {
+                    span: None,
+                    index: 1,
+                });
                 self.prepare_manifest_xml_jsonml_array(array.view())?;
                 Ok(())
             }
@@ -1536,7 +1541,7 @@ impl<'p> Evaluator<'_, 'p> {
         }
     }
 
-    pub(super) fn do_std_manifest_xml_jsonml_item_n(&mut self) -> EvalResult<()> {
+    pub(super) fn do_std_manifest_xml_jsonml_item_n(&mut self, index: usize) -> EvalResult<()> {
         let item_value = self.value_stack.pop().unwrap();
         match item_value {
             ValueData::String(s) => {
@@ -1544,7 +1549,10 @@ impl<'p> Evaluator<'_, 'p> {
                 result.push_str(&s);
                 Ok(())
             }
-            ValueData::Array(array) => self.prepare_manifest_xml_jsonml_array(array.view()),
+            ValueData::Array(array) => {
+                self.push_trace_item(TraceItem::ArrayItem { span: None, index });
+                self.prepare_manifest_xml_jsonml_array(array.view())
+            }
             _ => Err(self.report_error(EvalErrorKind::Other {
                 span: None,
                 message: format!(
